@@ -91,7 +91,7 @@ theorem api_step_alive (ac : ApiCfg) (s : Sys) (op : Op) (f : List Nat) (m : MOp
       exact Iff.trans (by simp [hA]) (born _ x rfl (hx x rfl)).symm
     | newr x k a vs =>
       cases k with
-      | inp => cases h
+      | inp => injection h with h; subst h; show c ∈ x :: A ↔ (setAlive _ x true).isAlive c = true; exact Iff.trans (by simp [hA]) (born _ x rfl (hx x rfl)).symm
       | fw => injection h with h; subst h; show c ∈ x :: A ↔ (setAlive _ x true).isAlive c = true; exact Iff.trans (by simp [hA]) (born _ x rfl (hx x rfl)).symm
     | newg x a vs => injection h with h; subst h; show c ∈ x :: A ↔ (setAlive _ x true).isAlive c = true; exact Iff.trans (by simp [hA]) (born _ x rfl (hx x rfl)).symm
     | newc x y a =>
@@ -112,7 +112,14 @@ theorem api_step_alive (ac : ApiCfg) (s : Sys) (op : Op) (f : List Nat) (m : MOp
     | insn x p n arg => cases arg <;> (injection h with h; subst h; show c ∈ A ↔ Sys.isAlive _ c = true; exact Iff.trans (hA c) (same _ rfl).symm)
     | insr x p k vs =>
       cases k with
-      | inp => cases h
+      | inp =>
+        simp only [toMOp] at h
+        by_cases he : vs.isEmpty = true
+        · rw [if_pos he] at h; cases h
+        · rw [if_neg he] at h
+          by_cases hp : p = (s.w.hdr x).size
+          · rw [if_pos hp] at h; injection h with h; subst h; show c ∈ A ↔ Sys.isAlive _ c = true; exact Iff.trans (hA c) (same _ rfl).symm
+          · rw [if_neg hp] at h; cases h
       | fw =>
         simp only [toMOp] at h
         by_cases he : vs.isEmpty = true
@@ -132,11 +139,11 @@ theorem api_step_alive (ac : ApiCfg) (s : Sys) (op : Op) (f : List Nat) (m : MOp
     | asn x n v => injection h with h; subst h; show c ∈ A ↔ Sys.isAlive _ c = true; exact Iff.trans (hA c) (same _ rfl).symm
     | asr x k vs =>
       cases k with
-      | inp => cases h
+      | inp => injection h with h; subst h; show c ∈ A ↔ Sys.isAlive _ c = true; exact Iff.trans (hA c) (same _ rfl).symm
       | fw => injection h with h; subst h; show c ∈ A ↔ Sys.isAlive _ c = true; exact Iff.trans (hA c) (same _ rfl).symm
     | app x k vs =>
       cases k with
-      | inp => cases h
+      | inp => injection h with h; subst h; show c ∈ A ↔ Sys.isAlive _ c = true; exact Iff.trans (hA c) (same _ rfl).symm
       | fw => injection h with h; subst h; show c ∈ A ↔ Sys.isAlive _ c = true; exact Iff.trans (hA c) (same _ rfl).symm
     | asc x y => injection h with h; subst h; show c ∈ A ↔ Sys.isAlive _ c = true; exact Iff.trans (hA c) (same _ rfl).symm
     | asm x y => injection h with h; subst h; show c ∈ A ↔ Sys.isAlive _ c = true; exact Iff.trans (hA c) (same _ rfl).symm
@@ -195,7 +202,7 @@ theorem api_reachable_sys (ac : ApiCfg) (hpol : StrongPolicy ac.cfg) :
       | newv y n v a => injection hm with hm; subst hm; subst hxe; exact m4 _ hv.1
       | newr y k a vs =>
         cases k with
-        | inp => cases hm
+        | inp => injection hm with hm; subst hm; subst hxe; exact m4 _ hv.1
         | fw => injection hm with hm; subst hm; subst hxe; exact m4 _ hv.1
       | newg y a vs => injection hm with hm; subst hm; subst hxe; exact m4 _ hv.1
       | newn y n a => injection hm with hm; subst hm; subst hxe; exact m4 _ hv.1
@@ -253,6 +260,26 @@ example : Covered { cfg := Ex.cfgT } [0, 1, 2, 3] (initSys 2 3) [] exApi := by
 
 example : (apiRun { cfg := Ex.cfgT } (initSys 2 3) exApi).alive = [false, false, true, false] ∧
     (apiRun { cfg := Ex.cfgT } (initSys 2 3) exApi).w.live.length = 1 := by decide +kernel
+
+/-- non-vacuity for the single-pass calls: a range construction that throws on its second element (nothing is constructed,
+    nothing stays allocated), the same returning, the public append throwing and returning, an assignment, an insert at end () -/
+def exApiIn : List (Op × List Nat) :=
+  [(.newr 0 .inp 0 [1, 2, 3], [1]), (.newr 0 .inp 0 [1, 2, 3], []), (.app 0 .inp [4, 5], [1]), (.app 0 .inp [4, 5], []),
+   (.asr 0 .inp [9], []), (.insr 0 1 .inp [8, 7], [])]
+
+example : Covered { cfg := Ex.cfgT } [0, 1, 2, 3] (initSys 2 3) [] exApiIn := by
+  refine ⟨_, rfl, ?_, _, rfl, ?_, _, rfl, ?_, _, rfl, ?_, _, rfl, ?_, .on 0 (.appendInput false 5 [8, 7]), by decide +kernel, ?_, trivial⟩
+  · show 0 ∈ [0, 1, 2, 3] ∧ 0 ∉ ([] : List Nat); decide
+  · show 0 ∈ [0, 1, 2, 3] ∧ 0 ∉ _; decide +kernel
+  · exact ⟨by decide +kernel, trivial⟩
+  · exact ⟨by decide +kernel, trivial⟩
+  · exact ⟨by decide +kernel, trivial⟩
+  · exact ⟨by decide +kernel, trivial⟩
+
+example : let s1 := apiRun { cfg := Ex.cfgT } (initSys 2 3) (exApiIn.take 1)
+    let s := apiRun { cfg := Ex.cfgT } (initSys 2 3) exApiIn
+    s1.alive = [false, false, false, false] ∧ s1.w.live = [] ∧
+    (s.w.mem (s.w.hdr 0).data).take (s.w.hdr 0).size = [.obj (.val 9), .obj (.val 8), .obj (.val 7)] := by decide +kernel
 
 end SvModel.Bridge
 
